@@ -20,6 +20,10 @@ def base_kind(d):
     return LOGICAL_BASE.get(k, 'long')
 
 
+NEAR_MISSES = ('fixed-length', 'enum-not-symbol(enum-has-default)', 'bytes-codepoint-above-255', 'fixed-codepoint-above-255',
+               'bytes-given-as-int-array', 'fixed-given-as-int-array')
+
+
 def check(dump, known_names=()):
     """returns a list of violated rule codes (empty = well formed)"""
     bad = []
@@ -137,11 +141,15 @@ def check(dump, known_names=()):
         if k == 'string':
             return None if isinstance(j, str) else 'string-not-string'
         if k == 'bytes':
+            if isinstance(j, list) and all(isinstance(x, int) and not isinstance(x, bool) and 0 <= x <= 255 for x in j):
+                return 'bytes-given-as-int-array'
             if not isinstance(j, str):
                 return 'bytes-not-string'
             return None if all(ord(c) <= 255 for c in j) else 'bytes-codepoint-above-255'
         if k == 'fixed':
             fx = d if d['k'] == 'fixed' else d['inner']
+            if isinstance(j, list) and all(isinstance(x, int) and not isinstance(x, bool) and 0 <= x <= 255 for x in j):
+                return 'fixed-given-as-int-array'
             if not isinstance(j, str):
                 return 'fixed-not-string'
             if not all(ord(c) <= 255 for c in j):
@@ -169,13 +177,17 @@ def check(dump, known_names=()):
             return None
         if k == 'union':
             # weaker of the two published readings: conform to SOME branch
-            first = None
+            first, near = None, None
             for b in d['branches']:
                 r = conforms(j, b, depth + 1)
                 if r is None:
                     return None
                 first = first or r
-            return 'union-no-branch:first=%s' % (first or 'empty')
+                if near is None and r in NEAR_MISSES:
+                    near = r
+            # a default that conforms to no branch: name the branch reason that comes closest (the near misses below are the
+            # ones a value-driven check lets through), else the first branch's reason
+            return 'union-no-branch:near=%s' % near if near else 'union-no-branch:first=%s' % (first or 'empty')
         if k == 'record':
             if not isinstance(j, dict):
                 return 'record-not-object'
